@@ -38,6 +38,30 @@ func collectAssigns(w *World, pr *prover, fns []*ssa.Function) []fieldAssign {
 				}
 				fa, ok := st.Addr.(*ssa.FieldAddr)
 				if !ok {
+					// for _, row := range [...]struct{dst *T; src T}{{&to.A, from.A}, …} { if row.src != nil { *row.dst = row.src } }:
+					// one assignment per row, guarded by the loop's tests read with that row's values
+					if rows, df, table, isRow := literalTableRowsOf(st.Addr); isRow {
+						if rows2, sf, table2, isRow2 := literalTableRowsOf(unwrap(st.Val)); isRow2 && table2 == table && len(rows2) == len(rows) {
+							for j, row := range rows {
+								efa, isFA := row[df].(*ssa.FieldAddr)
+								if !isFA {
+									continue
+								}
+								efp, okp := pr.structPath(efa, 0)
+								if !okp || len(efp.Idx) == 0 || efp.RootType.Obj().Pkg() != w.Types {
+									continue
+								}
+								gs := substGuards(pr, pr.dominatingGuards(b), func(v ssa.Value) []FieldPath {
+									if r3, f3, t3, ok3 := literalTableRowsOf(v); ok3 && t3 == table && j < len(r3) {
+										return pr.prov(r3[j][f3]).list()
+									}
+									return nil
+								})
+								out = append(out, fieldAssign{fn: f, instr: st, target: efp, sources: pr.prov(row[sf]).list(), guards: gs})
+							}
+							continue
+						}
+					}
 					// for _, p := range [...]*Item{&x.A, &x.B} { *p = G(*p) }: each field is assigned G of itself
 					if elems := pointerArrayElems(st.Addr); len(elems) > 0 {
 						if call, isCall := unwrap(st.Val).(*ssa.Call); isCall && len(call.Common().Args) >= 1 {
@@ -69,6 +93,47 @@ func collectAssigns(w *World, pr *prover, fns []*ssa.Function) []fieldAssign {
 				a.sources = pr.prov(st.Val).list()
 				a.guards = pr.dominatingGuards(b)
 				out = append(out, a)
+			}
+		}
+		// set(&to.F, from.F) where set — a local closure or a package helper — stores its value parameter through its
+		// pointer parameter (if with != nil { *link = with }): an assignment of the field, guarded by the helper's own
+		// tests read with the call's arguments
+		for _, call := range callsIn(f) {
+			var h *ssa.Function
+			if cal := call.Common().StaticCallee(); cal != nil {
+				h = cal
+			} else if mc := closureValue(call.Common().Value); mc != nil {
+				h, _ = mc.Fn.(*ssa.Function)
+			}
+			if h == nil || !w.InPkg(h) || h.Blocks == nil || len(h.Params) != 2 || len(call.Common().Args) != 2 {
+				continue
+			}
+			efa, isFA := call.Common().Args[0].(*ssa.FieldAddr)
+			if !isFA {
+				continue
+			}
+			efp, okp := pr.structPath(efa, 0)
+			if !okp || len(efp.Idx) == 0 || efp.RootType.Obj().Pkg() != w.Types {
+				continue
+			}
+			for _, hb := range h.Blocks {
+				for _, hin := range hb.Instrs {
+					hst, isSt := hin.(*ssa.Store)
+					if !isSt || hst.Addr != ssa.Value(h.Params[0]) || unwrap(hst.Val) != ssa.Value(h.Params[1]) {
+						continue
+					}
+					gs := substGuards(pr, pr.dominatingGuards(hb), func(v ssa.Value) []FieldPath {
+						if unwrap(v) == ssa.Value(h.Params[1]) {
+							return pr.prov(call.Common().Args[1]).list()
+						}
+						if ld, isLd := unwrap(v).(*ssa.UnOp); isLd && ld.Op == token.MUL && ld.X == ssa.Value(h.Params[0]) {
+							return []FieldPath{efp}
+						}
+						return nil
+					})
+					gs = append(gs, pr.dominatingGuards(call.Block())...)
+					out = append(out, fieldAssign{fn: f, instr: call, target: efp, sources: pr.prov(call.Common().Args[1]).list(), guards: gs})
+				}
 			}
 		}
 		// h(&x.A, &x.B, …) where h maps every pointed-to value through one function (for _, p := range ps { *p = G(*p) })
@@ -774,6 +839,7 @@ func checkC18(w *World, c *Check, tier string) {
 		}
 		fromRoot := pr.canonicalRoot(mf.Params[1])
 		toRoot := pr.canonicalRoot(mf.Params[0])
+		lhMerge := loopHeaders(mf)
 		nR := 0
 		for _, rb := range returnBlocks(mf) {
 			ret := rb.Instrs[len(rb.Instrs)-1].(*ssa.Return)
@@ -803,6 +869,10 @@ func checkC18(w *World, c *Check, tier string) {
 				region := map[*ssa.BasicBlock]bool{}
 				for _, in := range sites[f] {
 					region[in.Block()] = true
+					// a merge made inside a loop over a table of (target, source) rows: the loop is the merge site
+					for h := range lhMerge[in.Block()] {
+						region[h] = true
+					}
 					for d := in.Block().Idom(); d != nil; d = d.Idom() {
 						br, isIf := d.Instrs[len(d.Instrs)-1].(*ssa.If)
 						if !isIf {
@@ -1340,4 +1410,52 @@ func returnsIntoParamStorage(h *ssa.Function) string {
 		}
 	}
 	return ""
+}
+
+// substGuards: guards whose tested value is not a struct field by itself (a table row's field, a helper's parameter)
+// are read with what that value stands for, as given by mapVal.
+func substGuards(pr *prover, gs []guard, mapVal func(ssa.Value) []FieldPath) []guard {
+	out := make([]guard, 0, len(gs))
+	for _, g := range gs {
+		if len(g.refs) == 0 {
+			var operand ssa.Value
+			switch x := g.cond.(type) {
+			case *ssa.BinOp:
+				if _, isC := x.Y.(*ssa.Const); isC {
+					operand = x.X
+				} else if _, isC := x.X.(*ssa.Const); isC {
+					operand = x.Y
+				}
+			case *ssa.Call:
+				if len(x.Common().Args) >= 1 {
+					operand = x.Common().Args[0]
+				}
+			}
+			if operand != nil {
+				if inner, isLen := lenOperand(operand); isLen {
+					operand = inner
+				}
+				if refs := mapVal(operand); len(refs) > 0 {
+					g.refs = refs
+				}
+			}
+		}
+		out = append(out, g)
+	}
+	return out
+}
+
+// closureValue: the MakeClosure a called function value stands for (directly, or through a local it was assigned to once).
+func closureValue(v ssa.Value) *ssa.MakeClosure {
+	switch x := v.(type) {
+	case *ssa.MakeClosure:
+		return x
+	case *ssa.UnOp:
+		if al, ok := x.X.(*ssa.Alloc); ok && x.Op == token.MUL {
+			if sts := storesTo(al); len(sts) == 1 {
+				return closureValue(sts[0].Val)
+			}
+		}
+	}
+	return nil
 }
